@@ -258,6 +258,19 @@ func init() {
 			scs := []Scenario{{Name: "2val-custom-params", Cfg: gs[0], Alphabet: c01alphabet(), K: k, D: d, Tail: 1}}
 			scs = append(scs, Scenario{Name: "3val-equal-maxvals2", Cfg: gs[1], Alphabet: c01alphabet(), K: k - 1, D: d, Tail: 1})
 			scs = append(scs, Scenario{Name: "1val-module-genesis", Cfg: gs[2], Alphabet: c01alphabet(), K: k - 1, D: d, Tail: 1})
+			// several validators entering / leaving the set in one block (order of the update batch)
+			many := append(setAlphabet(),
+				multiB("[unstake(k0),unstake(k1),unstake(k2)]", txE(chain.TxSpec{Msg: "unstake", From: 0}), txE(chain.TxSpec{Msg: "unstake", From: 1}), txE(chain.TxSpec{Msg: "unstake", From: 2})),
+				multiB("[burn(k0,0.9),burn(k1,0.9),burn(k2,0.9)]", chain.Event{Kind: "burn", Who: 0, Sev: "0.9"}, chain.Event{Kind: "burn", Who: 1, Sev: "0.9"}, chain.Event{Kind: "burn", Who: 2, Sev: "0.9"}),
+				Choice{Label: "miss(k0,k1,k2)", Block: chain.Block{Missed: []int{0, 1, 2}}},
+				Choice{Label: "evidence(k0,k1,k2)", Block: chain.Block{Evidence: []chain.Evidence{{Val: 0, HeightAgo: 1, Age: time.Second}, {Val: 1, HeightAgo: 1, Age: time.Second}, {Val: 2, HeightAgo: 1, Age: time.Second}}}},
+			)
+			scs = append(scs, Scenario{Name: "4val-ordered-max3-many-leavers", Cfg: cfg4ordered(), Alphabet: many, K: k, D: d - 1, Tail: 1})
+			all4 := cfg4ordered()
+			p4 := *all4.Pos
+			p4.MaxValidators = 10
+			all4.Pos = &p4
+			scs = append(scs, Scenario{Name: "4val-all-in-set-many-leavers", Cfg: all4, Alphabet: many, K: k, D: d - 1, Tail: 1})
 			return scs
 		},
 		Run: func(sc *Scenario, blocks []chain.Block) HistResult {
